@@ -75,7 +75,7 @@ def extra_gen(bdir, tier):
     elab, ins, outs = _lfsr()
     ports = {n: (s, 'i') for n, s in ins}; ports.update({n: (s, 'o') for n, s in outs})
     nl = nir2coq.elaborate(elab, ports)
-    ci, cell = xtgen.ff_of_signal(nl, "current_value")
+    ci, cell = xtgen.ff_of_signal(nl, "current_value", 16)
     consts = dict(clear=0, advance=1)
     for nm in nl.top.ports_i:
         if nm == "rst" or nm.endswith("_rst"): consts[nm] = 0
